@@ -27,6 +27,18 @@ AWAIT_TB = [AX[k] for k in ('A1', 'A5', 'A6', 'A7', 'A8', 'A10', 'X1', 'X2')] + 
     'rely while suspended: completion signals are never cleared or replaced, queues are never replaced, terminal results are frozen']
 
 PROPERTIES = {
+    'C13': {
+        'functions': ['EventBus.cleanup_event_history', 'EventBus.dispatch', 'EventBus.process_event', 'BaseEvent.event_status', 'BaseEvent.event_completed_at', 'BaseEvent.event_started_at',
+                      'EventBus._start', 'CleanShutdownQueue.put_nowait'],
+        'trusted_base': [AX[k] for k in ('A1', 'A5', 'A10', 'X1', 'X2', 'P1', 'P5')] + [SERIAL_ONLY,
+            'TRUSTED LEMMA (hand argument, assumed at the entry of the deletion loop of cleanup_event_history): the ids collected in events_to_remove are pairwise distinct keys of the history '
+            '(they are taken from three disjoint status classes of a dict\'s items; sorting permutes, slicing takes a prefix)',
+            'history dict representation invariant (distinct keys, insertion order) assumed on reads (A10)',
+            'datetimes are ordered by their timestamp() (P1)'],
+        'not_decided': ['third sentence ("eviction never changes what gets processed / can still be awaited", finding F11: an evicted in-flight parent is never signalled): not under contract - '
+                        'the parent walk of process_event looks ancestors up in bus histories; no post-condition about ancestors is stated, so F11 is neither proved absent nor reported by this check'],
+        'assumptions': [],
+    },
     'C12': {
         'functions': ['EventResult.update', 'BaseEvent.event_result_update', 'BaseEvent._event_result_is_truthy', 'BaseEvent.event_results_filtered', 'EventResult.__await__.wait',
                       'EventResult.handler_completed_signal', 'BaseEvent.event_completed_signal', 'bubus.get_handler_id', 'bubus.get_handler_name'],
